@@ -395,6 +395,43 @@ def run_ticks(ctx):
         ctx.violation("model/implementation disagree on seconds_to_midi_ticks case", kept[i])
 
 
+def run_beyond(ctx):
+    """Sampled correspondence BEYOND the tabulated domains: the unbounded theorems are about the
+    hand model; this ties the model to the code also outside octaves -1..9 / pitches 0..127."""
+    import partitura.utils.music as M
+    rng = ctx.rng
+    n = 600 if ctx.tier == "quick" else 6000
+    terms, kept = [], []
+    for i in range(n):
+        st = rng.choice(STEPS7 + [s.lower() for s in STEPS7])
+        al, oc = rng.randint(-12, 12), rng.randint(-60, 120)
+        r = _try(M.pitch_spelling_to_midi_pitch, st, al, oc)
+        m = rng.randint(-600, 1500)
+        r2 = _try(M.midi_pitch_to_pitch_spelling, m)
+        ctx.evaluations += 2
+        exp = 12 * (oc + 1) + BASE[st.upper()] + al
+        if r != ("ok", exp):
+            ctx.violation("pitch_spelling_to_midi_pitch(%r,%d,%d) = %r, expected %d" % (st, al, oc, r, exp),
+                          {"function": "pitch_spelling_to_midi_pitch", "args": [st, al, oc], "got": r, "expected": exp})
+            continue
+        ok2 = r2[0] == "ok" and r2[1][0] in BASE and r2[1][1] in (0, 1) and 12 * (r2[1][2] + 1) + BASE[r2[1][0]] + r2[1][1] == m
+        if not ok2:
+            ctx.violation("midi_pitch_to_pitch_spelling(%d) = %r does not sound %d" % (m, r2, m),
+                          {"function": "midi_pitch_to_pitch_spelling", "args": [m], "got": r2, "expected": "a spelling sounding %d" % m})
+            continue
+        ctx.nontrivial(("beyond", st, al, oc, m))
+        terms.append("(%s, %s, %s, %s, %s, (%s, %s, %s))" % (cstr(st), cz(al), cz(oc), cz(r[1]), cz(m), cstr(r2[1][0]), cz(r2[1][1]), cz(r2[1][2])))
+        kept.append({"ps": [st, al, oc], "midi": r[1], "m": m, "spelling": r2[1]})
+    ctx.count("beyond_domain_cases", len(terms))
+    failing = ctx.coq_failing("beyond", "From PV Require Import Lib.Base Model.C12.", "", terms,
+                              "fun c => match c with (s, a, o, r, m, (s2, a2, o2)) => zopt_eqb (ps_to_midi s a o) (Some r) && "
+                              "(let '(ms, ma, mo) := midi_to_ps m in String.eqb ms s2 && Z.eqb ma a2 && Z.eqb mo o2) end")
+    ctx.obligation("correspondence: model ps_to_midi / midi_to_ps = implementation on %d sampled inputs beyond the tabulated domain" % len(terms),
+                   not failing, failing[:5])
+    for i in failing[:5]:
+        ctx.violation("model/implementation disagree beyond the tabulated domain", kept[i])
+
+
 def run(ctx):
     ctx.rule = ("T2: every function named by C12 is executed on its whole finite domain (539 spellings, 128 MIDI pitches, "
                 "25x9 fifths/mode spellings, 30 key names, 8x7x2 intervals, 14 units x 4 dots x 7 tuplet ratios x 3 divisions, "
@@ -428,6 +465,7 @@ def run(ctx):
         ctx.violation("proof obligations of Props/C12.v no longer check: " + why, {"theorem_or_build": why}, no_input=True)
     if ok:
         run_ticks(ctx)
+        run_beyond(ctx)
     ctx.extra["exhaustive"] = True
     ctx.extra["exhaustive_note"] = "finite domains named by the property are enumerated completely; the ticks stream is sampled"
 
